@@ -588,7 +588,9 @@ func (fc *FnCtx) boxErrStruct(st *State, es string, ref Term) Term {
 			}
 		}
 	} else {
-		fc.assumeNoSentinel(st, e)
+		for _, s := range fc.eng.sentinels {
+			fc.assume(st, tNot(app(SBool, "errIs", e, T(SErr, s))))
+		}
 		for _, o := range fc.eng.errStructs {
 			if o != es {
 				fc.assume(st, tEq(app(SInt, "as_"+sanitize(o), e), intLit(0)))
